@@ -31,6 +31,14 @@ def Item.ref : Item → AttrRef
   | .str a => .s a | .strs a => .l a | .groups a => .g a | .kv a => .m a
   | .bool a => .b a | .optBool a => .b a | .passEnv => .passEnv
 
+/-- The attribute a guard looks at, if any. -/
+def Guard.reads : Guard → Option AttrRef
+  | .hasHashes => some (.l .hashes)
+  | _ => none
+
+/-- Does this schema entry depend on attribute `r` (through what it writes or through its guard)? -/
+def mentions (r : AttrRef) (gi : Guard × Item) : Bool := gi.2.ref == r || gi.1.reads == some r
+
 /-- The two views agree on everything except (possibly) attribute `r`. -/
 structure AgreeExcept (r : AttrRef) (v v' : View) : Prop where
   str : ∀ a, r ≠ .s a → v.str a = v'.str a
@@ -41,10 +49,18 @@ structure AgreeExcept (r : AttrRef) (v v' : View) : Prop where
   passEnv : r ≠ .passEnv → v.passEnv = v'.passEnv
   isTest : v.isTest = v'.isTest
 
+theorem guardOn_agree (c : Ctx) {r : AttrRef} {v v' : View} (h : AgreeExcept r v v') (g : Guard) (hg : g.reads ≠ some r) :
+    guardOn c v g = guardOn c v' g := by
+  cases g <;> simp only [guardOn, h.isTest]
+  have : r ≠ .l .hashes := fun e => hg (by rw [e]; rfl)
+  rw [h.list _ this]
+
 theorem serGuarded_agree (F : Facts) (c : Ctx) {r : AttrRef} {v v' : View} (h : AgreeExcept r v v')
-    (gi : Guard × Item) (hne : gi.2.ref ≠ r) : serGuarded F c v gi = serGuarded F c v' gi := by
+    (gi : Guard × Item) (hne : mentions r gi = false) : serGuarded F c v gi = serGuarded F c v' gi := by
   obtain ⟨g, i⟩ := gi
-  have hg : guardOn c v g = guardOn c v' g := by cases g <;> simp [guardOn, h.isTest]
+  simp only [mentions, Bool.or_eq_false_iff, beq_eq_false_iff_ne, ne_eq] at hne
+  obtain ⟨hne, hgr⟩ := hne
+  have hg : guardOn c v g = guardOn c v' g := guardOn_agree c h g hgr
   simp only [serGuarded, hg]
   split
   · cases i <;> simp only [Item.ref] at hne <;> simp only [serItem]
@@ -62,7 +78,7 @@ theorem serView_append (F : Facts) (c : Ctx) (v : View) (a b : List (Guard × It
   simp [serView]
 
 theorem serView_agree (F : Facts) (c : Ctx) {r : AttrRef} {v v' : View} (h : AgreeExcept r v v') :
-    ∀ (items : List (Guard × Item)), (∀ j ∈ items, j.2.ref ≠ r) → serView F c v items = serView F c v' items
+    ∀ (items : List (Guard × Item)), (∀ j ∈ items, mentions r j = false) → serView F c v items = serView F c v' items
   | [], _ => rfl
   | j :: rest, hj => by
     have h1 := serGuarded_agree F c h j (hj j (List.mem_cons_self ..))
@@ -72,27 +88,31 @@ theorem serView_agree (F : Facts) (c : Ctx) {r : AttrRef} {v v' : View} (h : Agr
 
 /-- Conversely for a list attribute: views that agree elsewhere and whose lists have the same concatenation
     serialise alike, however often the attribute is written. -/
-theorem serView_congr_list (F : Facts) (c : Ctx) {v v' : View} (a : LAttr) (h : AgreeExcept (.l a) v v')
-    (hf : (v.list a).flatten = (v'.list a).flatten) :
+theorem serView_congr_list (F : Facts) (c : Ctx) {v v' : View} (a : LAttr) (ha : a ≠ .hashes)
+    (h : AgreeExcept (.l a) v v') (hf : (v.list a).flatten = (v'.list a).flatten) :
     ∀ (items : List (Guard × Item)), serView F c v items = serView F c v' items
   | [] => rfl
   | gi :: rest => by
-    have ih := serView_congr_list F c a h hf rest
+    have ih := serView_congr_list F c a ha h hf rest
     simp only [serView, List.flatMap_cons] at ih ⊢
     rw [ih]
     congr 1
+    have hgr : gi.1.reads ≠ some (.l a) := by
+      obtain ⟨g, i⟩ := gi
+      cases g <;> simp [Guard.reads]
+      exact fun e => ha e.symm
     by_cases hr : gi.2.ref = .l a
     · obtain ⟨g, i⟩ := gi
-      have hg : guardOn c v g = guardOn c v' g := by cases g <;> simp [guardOn, h.isTest]
+      have hg : guardOn c v g = guardOn c v' g := guardOn_agree c h g hgr
       cases i <;> simp only [Item.ref, AttrRef.l.injEq, reduceCtorEq] at hr
       subst hr
       simp only [serGuarded, hg, serItem, hf]
-    · exact serGuarded_agree F c h gi hr
+    · exact serGuarded_agree F c h gi (by simp [mentions, hr, hgr])
 
 /-- Attribute `r` is written exactly once (by `gi`): equal pre-images force equal bytes for that write. -/
 theorem serView_single (F : Facts) (c : Ctx) {r : AttrRef} {v v' : View} (h : AgreeExcept r v v')
     (pre post : List (Guard × Item)) (gi : Guard × Item)
-    (hpre : ∀ j ∈ pre, j.2.ref ≠ r) (hpost : ∀ j ∈ post, j.2.ref ≠ r)
+    (hpre : ∀ j ∈ pre, mentions r j = false) (hpost : ∀ j ∈ post, mentions r j = false)
     (e : serView F c v (pre ++ gi :: post) = serView F c v' (pre ++ gi :: post)) :
     serGuarded F c v gi = serGuarded F c v' gi := by
   have e1 := serView_agree F c h pre hpre
@@ -108,12 +128,13 @@ theorem serView_single (F : Facts) (c : Ctx) {r : AttrRef} {v v' : View} (h : Ag
 def splitAt (r : AttrRef) : List (Guard × Item) → Option (List (Guard × Item) × (Guard × Item) × List (Guard × Item))
   | [] => none
   | j :: rest =>
-    if j.2.ref = r then (if rest.all (fun k => k.2.ref != r) then some ([], j, rest) else none)
+    if j.2.ref = r then (if rest.all (fun k => !mentions r k) && j.1.reads != some r then some ([], j, rest) else none)
+    else if mentions r j then none
     else (splitAt r rest).map fun (p, x, q) => (j :: p, x, q)
 
 theorem splitAt_spec (r : AttrRef) : ∀ (items : List (Guard × Item)) {pre gi post},
     splitAt r items = some (pre, gi, post) →
-    items = pre ++ gi :: post ∧ gi.2.ref = r ∧ (∀ j ∈ pre, j.2.ref ≠ r) ∧ (∀ j ∈ post, j.2.ref ≠ r)
+    items = pre ++ gi :: post ∧ gi.2.ref = r ∧ (∀ j ∈ pre, mentions r j = false) ∧ (∀ j ∈ post, mentions r j = false)
   | [], _, _, _, h => by simp [splitAt] at h
   | j :: rest, pre, gi, post, h => by
     simp only [splitAt] at h
@@ -125,22 +146,25 @@ theorem splitAt_spec (r : AttrRef) : ∀ (items : List (Guard × Item)) {pre gi 
         obtain ⟨rfl, rfl, rfl⟩ := h
         refine ⟨rfl, hj, by simp, ?_⟩
         intro k hk
-        have := List.all_eq_true.1 hall k hk
-        simpa using this
+        simp only [Bool.and_eq_true, List.all_eq_true, Bool.not_eq_true'] at hall
+        exact hall.1 k hk
       · cases h
     · rename_i hj
-      cases hs : splitAt r rest with
-      | none => simp [hs] at h
-      | some x =>
-        obtain ⟨p, x, q⟩ := x
-        simp only [hs, Option.map_some, Option.some.injEq, Prod.mk.injEq] at h
-        obtain ⟨rfl, rfl, rfl⟩ := h
-        obtain ⟨e, hr, hp, hq⟩ := splitAt_spec r rest hs
-        refine ⟨by rw [e]; rfl, hr, ?_, hq⟩
-        intro k hk
-        rcases List.mem_cons.1 hk with rfl | hk
-        · exact hj
-        · exact hp k hk
+      split at h
+      · cases h
+      · rename_i hm
+        cases hs : splitAt r rest with
+        | none => simp [hs] at h
+        | some x =>
+          obtain ⟨p, x, q⟩ := x
+          simp only [hs, Option.map_some, Option.some.injEq, Prod.mk.injEq] at h
+          obtain ⟨rfl, rfl, rfl⟩ := h
+          obtain ⟨e, hr, hp, hq⟩ := splitAt_spec r rest hs
+          refine ⟨by rw [e]; rfl, hr, ?_, hq⟩
+          intro k hk
+          rcases List.mem_cons.1 hk with rfl | hk
+          · simpa using hm
+          · exact hp k hk
 
 /-- Packaged form used by the property theorems. -/
 theorem serView_single' (F : Facts) (c : Ctx) {r : AttrRef} {v v' : View} (h : AgreeExcept r v v')
